@@ -15,6 +15,7 @@ from .common import *  # noqa
 from .common import key_of, union, isinstance_handled, noreturn_set, class_names, decorated_classes
 from . import shared
 from .shared import path_conditions, enclosing, enclosing_all, iter_direction, loop_iters
+from .shared import alternatives as shared_alts
 
 NEEDS_READER = True
 
@@ -391,30 +392,50 @@ def inst_bundle_names(repo: Repo, R, rule: str):
     fi = repo.func(F_INSTB, "InstBundleElabPass.elaborate_instance_bundle")
     env = au.local_env(fi.node)
     # the mapping signame -> new instance
-    dcs = [n for n in au.walk_no_nested(fi.node) if isinstance(n, ast.DictComp)]
-    if len(dcs) != 1:
-        raise AnalysisError(f"idiom-unknown: expected one dict comprehension (signal name -> new Instance) in {fi.site}")
-    dc = dcs[0]
+    # ... built by a dict comprehension, or by the equivalent loop `for s in ..: D[s] = <value>` (temporaries of the loop body expanded)
+    class _DC:  # the common view of both spellings
+        pass
+
+    cands = []
+    for n in au.walk_no_nested(fi.node):
+        if isinstance(n, ast.DictComp) and len(n.generators) == 1:
+            d = _DC()
+            d.node, d.generators, d.key, d.value = n, n.generators, n.key, n.value
+            asg_ = au.parents(fi.node).get(n)
+            d.mapping = asg_.targets[0].id if isinstance(asg_, ast.Assign) and isinstance(asg_.targets[0], ast.Name) else None
+            cands.append(d)
+        if isinstance(n, ast.For) and not n.orelse:
+            stores = [st for st in n.body if isinstance(st, ast.Assign) and len(st.targets) == 1 and isinstance(st.targets[0], ast.Subscript) and isinstance(st.targets[0].value, ast.Name)]
+            if len(stores) == 1 and stores[0] is n.body[-1] and all(isinstance(st, ast.Assign) and len(st.targets) == 1 and isinstance(st.targets[0], ast.Name) for st in n.body[:-1]):
+                ldefs = {st.targets[0].id: st.value for st in n.body[:-1]}
+                d = _DC()
+                d.node = n
+                d.generators = [ast.comprehension(n.target, n.iter, [], 0)]
+                d.key = stores[0].targets[0].slice
+                d.value = au.expand(stores[0].value, ldefs)
+                d.mapping = stores[0].targets[0].value.id
+                cands.append(d)
+    cands = [d for d in cands if any(isinstance(x, ast.Call) and (dotted(x.func) or "").split(".")[-1] == "Instance" for x in ast.walk(d.value))]
+    if len(cands) != 1:
+        raise AnalysisError(f"idiom-unknown: expected one construction of the mapping signal name -> new Instance (dict comprehension or accumulation loop) in {fi.site}, found {len(cands)}")
+    dc = cands[0]
     g = dc.generators[0]
     var = ast.unparse(g.target)
     it = ast.unparse(au.expand(g.iter, env))
+    val = dc.value
     key_ok = ast.unparse(dc.key) == var
     iter_ok = it.endswith(".bundle.signals") or it.endswith(".bundle.signals.keys()")
-    val = dc.value
     name_ok = False
     of_ok = False
     for c, b in pat.find("$S.flatname(segments=[$A, $B], *$_)", val) + pat.find("$S.flatname([$A, $B], *$_)", val):
         name_ok = ast.unparse(b["B"]) == var and ast.unparse(b["A"]).endswith(".name")
     for c, b in pat.find("Instance(of=$O, *$_)", val):
         of_ok = ast.unparse(b["O"]).endswith(".of")
-    R.check(key_ok and iter_ok and name_ok and of_ok, rule, key_of(fi, "member-instances"), fi.at(dc),
+    R.check(key_ok and iter_ok and name_ok and of_ok, rule, key_of(fi, "member-instances"), fi.at(dc.node),
             f"one Instance per bundle signal `{var}` in `{it}`: key is the signal name: {key_ok}; instance name joins bundle-instance name and `{var}`: {name_ok}; target is the InstanceBundle's target: {of_ok}",
             why="the p/n member instances of a Pair are created under the wrong member name, swapping their wiring")
-    mapping = None
+    mapping = dc.mapping
     par = au.parents(fi.node)
-    asg = par.get(dc)
-    if isinstance(asg, ast.Assign) and isinstance(asg.targets[0], ast.Name):
-        mapping = asg.targets[0].id
     # the three connection branches
     n = 0
     for c, b in pat.find("$NI.connect($PN, _bundle_ref($C, $S))", fi.node) + pat.find("$NI.connect($PN, $C.get($S))", fi.node):
@@ -969,7 +990,19 @@ def ref_resolution(repo: Repo, R):
         lp = enclosing(fu.node, c, (ast.For,))
         ok1 = lp is not None and ast.unparse(lp.target) == ast.unparse(b["CP"])
     ok2 = bool(pat.find(f"$S.parent = {r1}", fu.node))
-    ok3 = bool(pat.find(f"[{r1} if $P is {r0} else $P for $P in $PARTS]", fu.node))
+    # what is stored into <concat>.parts: the old parts, position by position, with the reference replaced by the referent
+    ok3 = False
+    for st in au.stmts(fu.node):
+        if isinstance(st, ast.Assign) and len(st.targets) == 1 and isinstance(st.targets[0], ast.Attribute) and st.targets[0].attr == "parts":
+            owner = ast.unparse(st.targets[0].value)
+            for v, _c in shared_alts(fu.node, st.value, []):
+                comp = v.args[0] if isinstance(v, ast.Call) and isinstance(v.func, ast.Name) and v.func.id in ("tuple", "list") and len(v.args) == 1 else v
+                if isinstance(comp, (ast.ListComp, ast.GeneratorExp)) and len(comp.generators) == 1 and not comp.generators[0].ifs and isinstance(comp.generators[0].target, ast.Name):
+                    pv = comp.generators[0].target.id
+                    it = comp.generators[0].iter
+                    while isinstance(it, ast.Call) and isinstance(it.func, ast.Name) and it.func.id in ("list", "tuple") and len(it.args) == 1:
+                        it = it.args[0]
+                    ok3 = ast.unparse(comp.elt) == f"{r1} if {pv} is {r0} else {pv}" and ast.unparse(it) == f"{owner}.parts"
     R.check(ok1 and ok2 and ok3, rule, key_of(fu), fu.site,
             f"update_ref_deps: each connected port replaced by the referent (same port name): {ok1}; dependent slices re-parented: {ok2}; concat parts substituted position-wise: {ok3}",
             why="ports, slices or concatenations that used the reference keep pointing at the unresolved reference or at another part")
